@@ -478,4 +478,29 @@ Theorem C16_mem_batch_is_source :
 Proof. exact KvvGenProofs.gen_put_batch_is_model. Qed.
 Print Assumptions C16_mem_batch_is_source.
 
+(** The staging rule of the cloud store is the source's.  CloudKVVStore::put_with_version, ::put and ::delete
+    (vls-persist/src/kvv/cloud.rs, whole bodies, translated with L = MemoryKVVStore: the guard of the commit log -
+    a poisoned mutex panics -, `as_mut().expect("not in transaction")`, the staged-version test, the calls
+    `self.local.get_version(key)?` / `self.local.get(key)?.expect(..)` into the translated memory store, `existing.1 != value`,
+    `commit_log.insert`) are the model's [c_pwv] / [c_put] on every state [c] (local store, commit log or none,
+    poisoned flag), key, version and value: an accepted call leaves exactly the model's state, a refusal is
+    Err(Error::VersionMismatch) where the model says RErr (and the model's state is then unchanged), and the generated
+    function panics exactly where the model says RAbort.  NOT covered: the state after a panic - the model poisons
+    the commit-log mutex ([c_poison]); the generated side has no state after a panic. *)
+Theorem C16_cloud_staging_is_source :
+  forall (prof : profile) (c : cloud) (k : key) (ver : N) (val : value),
+    KvvGen.gen_CloudKVVStore_put_with_version prof (KvvGenProofs.conc c) k ver val =
+      KvvGenProofs.of_cres (c_pwv c k ver val) /\
+    KvvGen.gen_CloudKVVStore_put prof (KvvGenProofs.conc c) k val = KvvGenProofs.of_cres (c_put prof c k val) /\
+    KvvGen.gen_CloudKVVStore_delete prof (KvvGenProofs.conc c) k = KvvGenProofs.of_cres (c_put prof c k []) /\
+    (snd (c_pwv c k ver val) = RErr -> fst (c_pwv c k ver val) = c).
+Proof.
+  intros. repeat split.
+  - apply KvvGenProofs.gen_cloud_pwv_is_model.
+  - apply KvvGenProofs.gen_cloud_put_is_model.
+  - apply KvvGenProofs.gen_cloud_delete_is_model.
+  - apply KvvGenProofs.c_pwv_refusal_keeps.
+Qed.
+Print Assumptions C16_cloud_staging_is_source.
+
 Check C16_disk_refines_mem.
